@@ -10,7 +10,7 @@ for d in seeded/*/; do
   tier=quick; grep -q '"needs_tier": "thorough"' "$d/meta.json" && tier=thorough
   res=$(VERIF_TIER=$tier tools/mutant_lab.sh run "$d/patch.diff" "$pid" 2>&1 | tail -1)
   echo "$id [$tier]: $res"
-  case "$res" in DETECTED*) ;; *) bad=1 ;; esac
+  if grep -q '"expected": "miss"' "$d/meta.json"; then :; else case "$res" in DETECTED*) ;; *) bad=1 ;; esac; fi
   python3 - "$d/meta.json" "$tier" "$res" <<'PY'
 import json,sys
 p,tier,res=sys.argv[1:4]
